@@ -29,6 +29,9 @@ class ScalesSocket(object):
       try:
         self.handle.connect(res[4])
       except socket.error as e:
+        # Don't leave a half-created socket behind, isOpen() must report False.
+        self.handle.close()
+        self.handle = None
         if res is not resolved[-1]:
           continue
         else:
